@@ -88,4 +88,20 @@ theorem pub_priv_eq (w : HDWallet) (k : Nat) (P : Nat × Nat) (hw : PrivWF w k) 
   unfold pub
   simp only [hnpub, Bool.false_eq_true, ↓reduceIte, hlen, ne_eq, not_true_eq_false, hdrop, publicFromPrivate, hval, hP, serPoint]
 
+theorem ckdPriv_range (hmac : Bytes → Bytes → Bytes) (k : Nat) (c : Bytes) (i k' : Nat) (c' : Bytes)
+    (h : Spec.Bip32.ckdPriv hmac k c i = some (k', c')) : 0 < k' ∧ k' < Secp.n := by
+  unfold Spec.Bip32.ckdPriv at h
+  simp only [] at h
+  generalize (if i ≥ 2 ^ 31 then _ else _ : Bytes) = I at h
+  split at h
+  · simp at h
+  · rename_i hc
+    simp only [Option.some.injEq, Prod.mk.injEq] at h
+    obtain ⟨rfl, _⟩ := h
+    have hn : 0 < Secp.n := by decide
+    constructor
+    · have : ¬ ((Spec.Bip32.parse256 (I.take 32) + k) % Secp.n = 0) := fun e => hc (Or.inr e)
+      omega
+    · exact Nat.mod_lt _ hn
+
 end GocoinV.Proofs.C14
